@@ -47,7 +47,9 @@ void Schreibe_Wahrheitswert(ddpbool p1) {
 
 void Schreibe_Buchstabe(ddpchar p1) {
 	char temp[5];
-	utf8_char_to_string(temp, p1);
+	if (utf8_char_to_string(temp, p1) == (size_t)-1) { // invalid utf8, nothing to write
+		return;
+	}
 	printf(DDP_STRING_FMT, temp);
 }
 
